@@ -164,11 +164,12 @@ def m_table():
     import m_run
     return {
         "C09": [("c09_runner", m_run.c09_runner), ("c09_hmc_run", m_run.c09_hmc_run), ("c09_nuts_run", m_run.c09_nuts_run)],
-        "C10": [("c10_run_chain_progress", m_run.c10_run_chain_progress), ("c10_precision", m_run.c10_precision)],
+        "C10": [("c10_run_chain_progress", m_run.c10_run_chain_progress), ("c10_precision", m_run.c10_precision),
+                ("c10_reporter", m_run.c10_reporter)],
         "C12": [("c12_ess", m_stats.c12_ess)],
         "C16": [("c16_new", m_stats.c16_new)],
         "C02": [("c02_hmc_step", m_hmc.c02_hmc_step), ("c02_reversible", m_hmc.c02_reversible),
-                ("c02_hmc_two_steps", m_hmc.c02_hmc_two_steps)],
+                ("c02_hmc_two_steps", m_hmc.c02_hmc_two_steps), ("c02_hmc_nan", m_hmc.c02_hmc_nan)],
         "C07": [("c07_hmc_hidden_randomness", m_hmc.c07_hmc_hidden_randomness), ("c07_nuts_set_seed", m_nuts.c07_nuts_set_seed)],
         "C04": [("c04_adaptation", m_nuts.c04_adaptation)],
         "C03": [("c03_build_tree", m_nuts.c03_build_tree), ("c03_step", m_nuts.c03_step)],
